@@ -102,7 +102,23 @@ struct Outcome {
     sig: u64,
 }
 
-const STEP_CAP: usize = 20_000;
+const STEP_CAP: usize = 4_000;
+
+/// Fair continuation beyond an enumerated / replayed prefix: the next thread after `last`
+/// (cyclically) that has an enabled action.  Fairness makes a run terminate even if the lock
+/// degenerates into a spin lock.
+fn round_robin(opts: &[Act], last: Option<usize>, n: usize) -> Act {
+    let thr = |a: &Act| match a {
+        Act::Run(t, _) | Act::Wake(t, _) => *t,
+        Act::Spur(w) => *w,
+    };
+    let start = last.map_or(0, |l| l + 1);
+    (0..n)
+        .map(|k| (start + k) % n)
+        .find_map(|t| opts.iter().find(|a| thr(a) == t))
+        .cloned()
+        .unwrap_or_else(|| opts[0].clone())
+}
 
 fn run_case(rec: &mut Recorder, n: usize, iters: usize, mode: &mut Mode) -> Outcome {
     OCC.store(0, Ordering::SeqCst);
@@ -183,7 +199,13 @@ fn run_case(rec: &mut Recorder, n: usize, iters: usize, mode: &mut Mode) -> Outc
             break;
         }
         let act = match mode {
-            Mode::Dfs(d) => opts[d.choose(opts.len())].clone(),
+            Mode::Dfs(d) => {
+                if d.past_depth() {
+                    round_robin(&opts, last, n)
+                } else {
+                    opts[d.choose(opts.len())].clone()
+                }
+            }
             Mode::Random { rng, sticky, spur_pct } => {
                 if !sleepers.is_empty() && rng.below(100) < *spur_pct {
                     Act::Spur(*rng.pick(&sleepers))
@@ -216,7 +238,7 @@ fn run_case(rec: &mut Recorder, n: usize, iters: usize, mode: &mut Mode) -> Outc
                         }
                     }
                 }
-                pick.unwrap_or_else(|| opts[0].clone())
+                pick.unwrap_or_else(|| round_robin(&opts, last, n))
             }
         };
         out.steps += 1;
@@ -335,7 +357,7 @@ fn main() {
     let big = args.thorough() || args.search;
     // exhaustive: (threads, rounds, decision depth)
     let exh: &[(usize, usize, usize)] =
-        if big { &[(2, 1, 18), (2, 2, 13), (3, 1, 9)] } else { &[(2, 1, 12), (2, 2, 9), (3, 1, 6)] };
+        if big { &[(2, 1, 15), (2, 2, 11), (3, 1, 8)] } else { &[(2, 1, 12), (2, 2, 9), (3, 1, 6)] };
     for &(n, iters, depth) in exh {
         let mut dfs = Dfs::new(depth);
         let mut runs = 0u64;
@@ -352,7 +374,7 @@ fn main() {
     }
     // random long schedules
     let mut rng = Rng::new(args.seed);
-    let cases = args.budget(400, 8000);
+    let cases = args.budget(400, 3000);
     for c in 0..cases {
         let n = rng.range(2, 4) as usize;
         let iters = rng.range(1, 3) as usize;
